@@ -112,7 +112,8 @@ Qed.
 Definition with_schema_errors (w : world) (errs : list string) : world :=
   {| w_schema_files := w_schema_files w; w_schema_build := w_schema_build w; w_remote := w_remote w;
      w_schema_errors := errs; w_plugin_err := w_plugin_err w; w_query_files := w_query_files w;
-     w_op_errors := w_op_errors w; w_ops := w_ops w; w_fragments := w_fragments w |}.
+     w_op_errors := w_op_errors w; w_ops := w_ops w; w_fragments := w_fragments w;
+     w_query_type := w_query_type w; w_mutation_type := w_mutation_type w |}.
 
 Theorem run_client_ignores_schema_validity e cfg w errs :
   run_client e cfg (with_schema_errors w errs) = run_client e cfg w.
@@ -151,11 +152,51 @@ Lemma add_operations_ok ops : forall files r, add_operations ops files = Ok r ->
   forallb (fun o => match op_name o, op_err o with Some _, None => true | _, _ => false end) ops = true.
 Proof.
   induction ops as [|o ops IH]; simpl; intros files r H; auto.
-  destruct (op_name o); [|discriminate]. destruct (op_err o); [discriminate|].
+  destruct (op_name o); [|discriminate]. destruct (existsb _ files); [discriminate|].
+  destruct (op_err o); [discriminate|].
   simpl. eapply IH; eauto.
 Qed.
 
-Local Opaque has_dup unique_check_names write_plan pkg_dir.
+(* the result modules of an accepted operation list are pairwise distinct: two operations mapping to one
+   module name are refused (ParsingError) in the operations phase *)
+Lemma existsb_eqb_false x l : existsb (String.eqb x) l = false -> ~ In x l.
+Proof.
+  intros H Hin. assert (existsb (String.eqb x) l = true) as HT.
+  { apply existsb_exists. exists x. split; auto. apply String.eqb_refl. }
+  congruence.
+Qed.
+
+Lemma NoDup_snoc {X} (l : list X) x : NoDup l -> ~ In x l -> NoDup (l ++ [x]).
+Proof.
+  induction l as [|y l IH]; simpl; intros ND NI.
+  - constructor; auto.
+  - inversion ND; subst. constructor.
+    + intro Hin. apply in_app_or in Hin as [Hin|[Hin|[]]]; [contradiction | subst; apply NI; left; reflexivity].
+    + apply IH; auto.
+Qed.
+
+Lemma add_operations_nodup ops : forall files r, NoDup files -> add_operations ops files = Ok r -> NoDup r.
+Proof.
+  induction ops as [|o ops IH]; simpl; intros files r ND H.
+  - inversion H; subst; auto.
+  - destruct (op_name o) as [n|]; [|discriminate].
+    destruct (existsb (String.eqb (module_name n ++ ".py")%string) files) eqn:E; [discriminate|].
+    destruct (op_err o); [discriminate|].
+    eapply IH; [|exact H]. apply NoDup_snoc; auto using existsb_eqb_false.
+Qed.
+
+Lemma add_operations_dup_refused o ops files n :
+  op_name o = Some n -> In (module_name n ++ ".py")%string files ->
+  add_operations (o :: ops) files
+  = Err (mkerr ParsingError ("Duplicated file names: " ++ module_name n ++ ".py")%string).
+Proof.
+  intros HN Hin. simpl. rewrite HN.
+  assert (existsb (String.eqb (module_name n ++ ".py")%string) files = true) as ->.
+  { apply existsb_exists. eexists. split; eauto. apply String.eqb_refl. }
+  reflexivity.
+Qed.
+
+Local Opaque has_dup unique_check_names write_plan pkg_dir custom_files.
 
 Theorem run_client_done_implies_checked e cfg w :
   snd (run_client e cfg w) = Done ->
@@ -166,7 +207,7 @@ Theorem run_client_done_implies_checked e cfg w :
     (c_queries_path c <> "" ->
        w_query_files w <> [] /\ forallb gf_ok (w_query_files w) = true /\ relevant_op_errors w = [] /\
        forallb (fun o => match op_name o, op_err o with Some _, None => true | _, _ => false end) (w_ops w) = true) /\
-    has_dup (unique_check_names e c
+    has_dup (unique_check_names e c w
       (match add_operations (if String.eqb (c_queries_path c) "" then [] else w_ops w) [] with
        | Ok r => r | _ => [] end)) = false.
 Proof.
@@ -245,7 +286,8 @@ Proof.
   induction ops as [|o ops IH]; simpl; intros files x HT H; [discriminate|].
   apply andb_true_iff in HT as [H1 H2].
   destruct (op_name o).
-  - destruct (op_err o) as [y|] eqn:E.
+  - destruct (existsb _ files); [inversion H; reflexivity|].
+    destruct (op_err o) as [y|] eqn:E.
     + inversion H; subst. exact H1.
     + eapply IH; eauto.
   - inversion H; reflexivity.
